@@ -22,17 +22,20 @@ type Case struct {
 	Ending string         `json:"ending"` // cancel | timeout
 	// Noise: calls naming another transaction id (all refused) between T and its ending
 	Noise []string `json:"noise,omitempty"` // cancel-foreign | confirm-foreign
+	// FailFirstRollback (ending cancel): the device refuses the first rollback, the client repeats the cancel
+	FailFirstRollback bool `json:"fail_first_rollback,omitempty"`
 }
 
 var prop = vlib.Prop[*Case]{
 	ID: "C05",
-	Rule: "case = confirmed prefix history (0..6 transactions as in C01) + one transaction T (single/multi-intent; create, change, shrink, re-prioritise, delete, orphan; shadowed or ruling) ended by TransactionCancel or by expiry of a 30 ms rollback timer, optionally after refused Confirm / Cancel calls naming another id; " +
+	Rule: "case = confirmed prefix history (0..6 transactions as in C01) + one transaction T (single/multi-intent; create, change, shrink, re-prioritise, delete, orphan; shadowed or ruling) ended by TransactionCancel or by expiry of a 30 ms rollback timer, optionally after refused Confirm / Cancel calls naming another id, or with the first rollback refused by the device and the cancel repeated; " +
 		"oracle = snapshot round trip: INTENDED dump (paths, owners, priorities, values) after the rollback equals the dump before T, TransactionCancel returns nil, and every path T touched (its new content and the stored content of the intents it names) has on the recording device the value or absence it had before T; " +
 		"non-trivial = T modifies >=1 pre-existing intent and changes the device or the store; distinct = distinct case JSON",
 	Gen: func(t *rapid.T) *Case {
 		o := vlib.HistGenOpts{Universe: vlib.UniPlainNA, MinSteps: 0, MaxSteps: 6, WithInit: true, AllowOrphan: true}
 		c := &Case{Hist: vlib.GenHistCase(t, o), T: vlib.GenStep(t, o)}
 		c.Ending = rapid.SampledFrom([]string{"cancel", "cancel", "cancel", "timeout"}).Draw(t, "ending")
+		c.FailFirstRollback = c.Ending == "cancel" && rapid.IntRange(0, 5).Draw(t, "fail-first-rollback") == 2
 		if rapid.IntRange(0, 3).Draw(t, "noise") == 0 {
 			c.Noise = rapid.SliceOfN(rapid.SampledFrom([]string{"cancel-foreign", "confirm-foreign"}), 1, 2).Draw(t, "noise-calls")
 		}
@@ -121,6 +124,22 @@ func Exec(c *Case) (nontrivial bool, labels []string, fail *vlib.Failure) {
 	}
 	switch c.Ending {
 	case "cancel":
+		if c.FailFirstRollback {
+			// the device refuses the rollback once; the transaction stays open and the client cancels again
+			h.Dev.FailAt = h.Dev.Calls() + 1
+			err1 := h.DS.TransactionCancel(ctx, res.TxID)
+			fired := h.Dev.FailFired()
+			h.Dev.FailAt = 0
+			if fired {
+				lab["cancel-repeated-after-refused-rollback"] = true
+				if err1 == nil {
+					return nontrivial, keys(lab), vlib.Failf("C05:cancel-swallowed-device-error", "%s: the device refused the rollback, TransactionCancel returned no error", where)
+				}
+			} else if err1 == nil {
+				// nothing had to be sent: the cancel is complete
+				break
+			}
+		}
 		if err := h.DS.TransactionCancel(ctx, res.TxID); err != nil {
 			return nontrivial, keys(lab), vlib.Failf("C05:cancel-error", "%s: TransactionCancel returned %v", where, err)
 		}
